@@ -42,6 +42,9 @@ inline void fillOptions(Req& r, unsigned archFlag) {
 	r.ctx.maxSize = int(c.geti("maxsize", 4));
 	r.ctx.bigSizes = c.geti("bigsizes", 0) != 0;
 	r.ctx.keyNul = c.geti("keynul", 0) != 0;
+	r.ctx.badUtf = c.geti("badutf", 0) != 0;
+	r.ctx.badEnum = c.geti("badenum", 0) != 0;
+	r.ctx.ragged = c.geti("ragged", 0) != 0;
 }
 
 struct Outcome {
@@ -57,8 +60,17 @@ struct Outcome {
 	}
 };
 
+// Fault injection and metering are armed only around the library call (not around the harness code that prepares values and events)
+struct MeterScope {
+	static long long& pendingFailAt() { static long long v = 0; return v; }
+	static bool& wanted() { static bool v = false; return v; }
+	MeterScope() { if (wanted()) { vh::AllocMeter::fail_at = pendingFailAt() ? vh::AllocMeter::count.load() + pendingFailAt() : 0; vh::AllocMeter::enabled = true; } }
+	~MeterScope() { if (wanted()) { pendingFailAt() = 0; vh::AllocMeter::fail_at = 0; vh::AllocMeter::enabled = false; } }
+};
+
 template <class F> Outcome guarded(F&& f) {
 	Outcome o;
+	MeterScope armed;
 	try { f(); }
 	catch (const ValidationException& ex) {
 		o.out = "exc"; o.exc = "ValidationException"; o.code = Convert::ToString(ex.GetErrorCode()); o.what = ex.what();
@@ -90,7 +102,7 @@ template <class TArchive, class T> Outcome loadFrom(T& target, const std::string
 	}
 	auto run = [&](std::streambuf& sb) {
 		std::istream is(&sb);
-		if (excMask) is.exceptions(std::ios::badbit | std::ios::failbit);
+		if (excMask) is.exceptions(std::ios::badbit);
 		Outcome oo = guarded([&] { LoadObject<TArchive>(target, is, r.opt); });
 		return oo;
 	};
@@ -116,7 +128,7 @@ template <class TArchive, class T> Outcome saveTo(T& value, std::string& outByte
 	if (sink == "failout") {
 		vh::FailOutBuf sb(size_t(r.c.geti("failat", 0)), int(r.c.geti("failmode", 0)));
 		std::ostream os(&sb);
-		if (excMask) os.exceptions(std::ios::badbit | std::ios::failbit);
+		if (excMask) os.exceptions(std::ios::badbit);
 		Outcome o = guarded([&] { SaveObject<TArchive>(value, os, r.opt); });
 		o.streamFailed = os.fail() || os.bad();
 		outBytes = sb.data();
@@ -244,7 +256,7 @@ template <class TArchive, class T> void reg(Registry& r, const char* arch, const
 	X(scalars, mz::Scalars) X(chrono, mz::Chrono) X(containers, mz::Containers) X(maps, mz::Maps) X(wrappers, mz::Wrappers) X(derived, mz::Derived) X(dyn, mz::DynNode) X(inner, mz::Inner) \
 	X(m_str_i32, std::map<std::string, int32_t>) X(m_str_str, std::map<std::string, std::string>) X(um_str_f64, std::unordered_map<std::string, double>) X(m_wstr_inner, std::map<std::wstring, mz::Inner>) \
 	X(pair_is, std::pair<int32_t, std::string>)
-#define DOC_OBJECTS_B(X) X(zoo, mz::Zoo)
+#define DOC_OBJECTS_B(X) X(zoo, mz::Zoo) X(flaky, mz::FlakyHolder)
 #define DOC_TYPED_KEY_MAPS(X) \
 	X(m_i64_str, std::map<int64_t, std::string>) X(m_u8_i32, std::map<uint8_t, int32_t>) X(m_f64_i32, std::map<double, int32_t>) X(m_f32_i32, std::map<float, int32_t>) X(m_tps_i32, std::map<mz::tp_s, int32_t>) \
 	X(m_durms_str, std::map<std::chrono::milliseconds, std::string>) X(m_enum_i32, std::map<mz::Color, int32_t>) X(m_bool_i32, std::map<bool, int32_t>)
